@@ -26,7 +26,7 @@ CLAIM = dict(
     text="Machine-checked (Coq 8.16, axiom-free) for the model of unwind.rs/events.rs/ctx.rs/mod.rs (Harness::exec/catch as: the rest of "
          "the callback and the yield are skipped, the module is deactivated, a PanicError is recorded unless Stereotyp.on_panic_catch), "
          "for every script of 2..4 modules with panics anywhere in handle_message / at_sim_start / at_sim_end / tasks, any number of "
-         "panicking modules, both stereotypes: (1) contained: after a callback of m panicked no dispatched event holds any record of m "
+         "panicking modules, both stereotypes: (1) contained: after a callback of m panicked no start-up stage and no dispatched event holds any record of m "
          "(no handler, wake-up, task step, send) until a restart event of m, which exists only if m itself requested "
          "shutdow_and_restart before it panicked; (2) errors_exact: the PanicError entries of the returned error are exactly the callback "
          "panics of non-catching modules, one per panic, in the order of the panics (so Ok only if there is none); (3) globals_released: "
@@ -76,9 +76,10 @@ def check_panics(d, rs):
             continue
         now = t if phase == "loop" else (0 if phase == "start" else recs[0][3])
         is_restart = phase == "loop" and recs[0][0] == R_START
-        if phase == "loop" and dead[m]:
+        if phase != "end" and dead[m]:
             if not is_restart:
-                raise Bad("module %d panicked at %s but the event at %d holds its records %s" % (m, dead_at[m], t, recs[:3]))
+                raise Bad("module %d panicked at %s but the %s at %s holds its records %s"
+                          % (m, dead_at[m], "event" if phase == "loop" else "start-up sweep", now, recs[:3]))
             if not pending[m]:
                 raise Bad("module %d panicked at %s without a pending restart but is restarted at %d" % (m, dead_at[m], t))
         if is_restart:
